@@ -28,6 +28,8 @@ type Violation struct {
 	Detail    string `json:"detail"`
 	Replay    any    `json:"replay"` // driver-specific, JSON; fed back through `verifcheck -replay`
 	Count     int64  `json:"count"`
+	// Ignore marks a dead end that is not a violation of this property (the branch is not expanded).
+	Ignore bool `json:"-"`
 }
 
 // Result is what one worker (or the merged run) covered.
